@@ -17,6 +17,7 @@ pub struct Session {
     pub counters: BTreeMap<String, u64>,
     pub lines: u64,
     pub dir: String,
+    pub last_stats: (u64, u64, u64),
 }
 
 pub fn json_str(s: &str) -> String {
@@ -60,6 +61,7 @@ impl Session {
             counters: BTreeMap::new(),
             lines: 0,
             dir: dir.to_string(),
+            last_stats: (0, 0, 0),
         }
     }
 
@@ -152,7 +154,13 @@ impl Session {
                 (Some(re), a)
             }
         };
-        self.line(&format!("pat\t{}\t{}", toks.join(" "), backrefs.join(",")), &answer);
+        let mut names: Vec<(usize, String)> = tree.named_groups.iter().map(|(n, i)| (*i, n.clone())).collect();
+        names.sort();
+        let names: Vec<String> = names.iter().map(|(i, n)| format!("{}={}", hex(n), i)).collect();
+        self.line(
+            &format!("pat\t{}\t{}\t{}", toks.join(" "), backrefs.join(","), names.join(",")),
+            &answer,
+        );
         let is_wrap = re.as_ref().map(|r| hooks::is_wrap(r)).unwrap_or(false);
         if with_facts {
             let facts = match catch_unwind(AssertUnwindSafe(|| hooks::analysis(pattern, casei))) {
@@ -201,9 +209,11 @@ impl Session {
             Ok(Ok(Some(c))) => show_captures(&c),
         };
         let stats = if b.is_wrap {
+            self.last_stats = (0, 0, 0);
             "0,0,0".to_string()
         } else {
             let (s, bt, d) = hooks::stats();
+            self.last_stats = (s, bt, d);
             format!("{},{},{}", s, bt, d)
         };
         self.line(
